@@ -16,6 +16,7 @@ package originium
 
 import (
 	"errors"
+	"math"
 
 	"github.com/B1NARY-GR0UP/originium/types"
 	"github.com/B1NARY-GR0UP/originium/utils"
@@ -26,6 +27,18 @@ var (
 	ErrDiscardedTxn = errors.New("transaction has been discarded")
 	ErrConflictTxn  = errors.New("transaction has a conflict")
 	ErrEmptyKey     = errors.New("key is empty")
+)
+
+var (
+	ErrKeyTooLarge   = errors.New("key is too large")
+	ErrValueTooLarge = errors.New("value is too large")
+)
+
+const (
+	// sstable blocks store key and value lengths as uint16,
+	// the stored key is key@ts where ts has at most 20 digits
+	maxKeySize   = math.MaxUint16 - 21
+	maxValueSize = math.MaxUint16
 )
 
 type Txn struct {
@@ -149,6 +162,10 @@ func (t *Txn) modify(e types.Entry) error {
 		return ErrDiscardedTxn
 	case e.Key == "":
 		return ErrEmptyKey
+	case len(e.Key) > maxKeySize:
+		return ErrKeyTooLarge
+	case len(e.Value) > maxValueSize:
+		return ErrValueTooLarge
 	}
 
 	// record key fingerprint
